@@ -166,6 +166,7 @@ fn account(st: &mut Stats, w: &World, stratum: Stratum, v: &Verdict, info: &RunI
     st.add("checked/S1_syntax_spans", info.s1_checked as u64);
     st.add("checked/S2_semantic_spans", info.s2_checked as u64);
     st.add("checked/R6_standard_gate_names", info.r6_names_checked as u64);
+    st.add("checked/G1_parse_entry_points_compared", info.g1_entry_points_compared as u64);
     st.add("checked/R6_user_gate_defined_first", info.r6_user_first as u64);
     st.add("checked/G3_torn_lexemes", info.g3_checked as u64);
     st.add("checked/reference_diagnostics_mapped", info.ref_diags as u64);
@@ -415,29 +416,87 @@ fn main() {
             // harness self-consistency: must never happen
             let harness_bad = b.stats.get("verdict/skip_harness_include_record_mismatch")
                 + b.stats.get("verdict/skip_harness_model_panic");
-            // distinct signatures, first occurrence each
+            // distinct signatures; per signature the first occurrence whose replay file reproduces
+            // the violation in a *fresh process* (a change to the code under test may add state
+            // that outlives a run — a process-wide cache, say — and a violation that only shows
+            // after other runs have been executed in the same process is not replayable from its
+            // world alone; such a candidate is passed over if a later one of the same signature
+            // is, and reported with a note otherwise)
             let mut reported: Vec<(Found, PathBuf)> = vec![];
             let mut seen = std::collections::BTreeSet::new();
+            let confirm = |path: &PathBuf| -> bool {
+                match std::env::current_exe().ok().and_then(|exe| {
+                    std::process::Command::new(exe)
+                        .arg("replay")
+                        .arg(path)
+                        .stdout(std::process::Stdio::null())
+                        .stderr(std::process::Stdio::null())
+                        .status()
+                        .ok()
+                }) {
+                    Some(st) => st.code() == Some(1),
+                    None => true, // cannot spawn: nothing to conclude
+                }
+            };
             for f in &b.found {
-                if !seen.insert(f.violation.signature.clone()) || reported.len() >= 5 {
+                if seen.contains(&f.violation.signature) || reported.len() >= 5 {
                     continue;
                 }
-                let min = minimise(&f.world, &f.violation.signature, Some(&property), 300);
-                let (world, minimised) = if min.steps_accepted > 0 { (min.world, true) } else { (f.world.clone(), false) };
-                let (v2, _, run2) = oq3sim::check_world(&world, Some(&property));
-                let detail = match &v2 {
-                    Verdict::Violation(v) => v.detail.clone(),
-                    _ => f.violation.detail.clone(),
-                };
-                let mut f2 = f.clone();
-                f2.violation.detail = detail;
-                let name = format!("{}-{}-{}-{}.json", property, seed, f.run, f.case);
-                let path = replay_dir.join(name);
-                if let Err(e) = report::write_json(&path, &replay_json(&property, seed, &f2, &world, minimised, &run2)) {
-                    eprintln!("harness error: {}", e);
-                    std::process::exit(2);
+                seen.insert(f.violation.signature.clone());
+                let candidates: Vec<&Found> =
+                    b.found.iter().filter(|g| g.violation.signature == f.violation.signature).take(12).collect();
+                let mut chosen: Option<(Found, PathBuf)> = None;
+                let mut first: Option<(Found, PathBuf)> = None;
+                for c in candidates {
+                    let name = format!("{}-{}-{}-{}.json", property, seed, c.run, c.case);
+                    let path = replay_dir.join(name);
+                    let write = |world: &World, minimised: bool| -> Found {
+                        let (v2, _, run2) = oq3sim::check_world(world, Some(&property));
+                        let mut c2 = c.clone();
+                        if let Verdict::Violation(v) = &v2 {
+                            c2.violation.detail = v.detail.clone();
+                        }
+                        if let Err(e) = report::write_json(&path, &replay_json(&property, seed, &c2, world, minimised, &run2)) {
+                            eprintln!("harness error: {}", e);
+                            std::process::exit(2);
+                        }
+                        c2
+                    };
+                    let min = minimise(&c.world, &c.violation.signature, Some(&property), 300);
+                    let mut c2 = write(if min.steps_accepted > 0 { &min.world } else { &c.world }, min.steps_accepted > 0);
+                    let mut ok = confirm(&path);
+                    if !ok && min.steps_accepted > 0 {
+                        // the minimiser ran in this process: fall back to the world as found
+                        c2 = write(&c.world, false);
+                        ok = confirm(&path);
+                    }
+                    if first.is_none() {
+                        first = Some((c2.clone(), path.clone()));
+                    }
+                    if ok {
+                        chosen = Some((c2, path));
+                        break;
+                    }
                 }
-                reported.push((f2, path));
+                // files of candidates that are not reported are removed again
+                let keep: Option<PathBuf> = chosen.as_ref().or(first.as_ref()).map(|x| x.1.clone());
+                for g in b.found.iter().filter(|g| g.violation.signature == f.violation.signature).take(12) {
+                    let p = replay_dir.join(format!("{}-{}-{}-{}.json", property, seed, g.run, g.case));
+                    if Some(&p) != keep.as_ref() {
+                        let _ = std::fs::remove_file(&p);
+                    }
+                }
+                match (chosen, first) {
+                    (Some(x), _) => reported.push(x),
+                    (None, Some(x)) => {
+                        println!(
+                            "note: [{}] was seen only after other runs had been executed in the same process; none of its replay files reproduces it in a fresh process (state that outlives a run)",
+                            x.0.violation.signature
+                        );
+                        reported.push(x)
+                    }
+                    (None, None) => {}
+                }
             }
             let wall = t0.elapsed().as_secs_f64();
             for f in findings.iter().filter(|f| f.property == property && f.status == "known") {
